@@ -24,7 +24,7 @@ ASSUMPTIONS = ['Budget t = (sum over similar pairs of d^2 under the initial matr
                'independently by the harness; tolerance factor 1.0101 (the algorithm stops projecting at relative error 0.01).',
                'The reference alternating projection uses the documented stop rule; a state whose stop margin is within 1e-9 of '
                'the rule is counted ambiguous and not compared.']
-BOUNDS = {'quick': dict(K=8, datasets=['S2', 'S3u', 'S5']), 'thorough': dict(K=30, datasets=['S2', 'S2u', 'S3', 'S3u', 'S5', 'S8', 'R'])}
+BOUNDS = {'quick': dict(K=8, datasets=['S2', 'S3u', 'S5']), 'thorough': dict(K=30, datasets=list(data.THOROUGH))}
 INITS = ['identity', 'covariance', 'random', 'array', 'array_F']
 
 
